@@ -481,7 +481,13 @@ def evaluate_z3_mod(
     if not z3.is_mod(expr):
         return Nothing
 
-    return Some(construct_result(lambda args: args[0] % args[1], children_results))
+    # SMT-LIB: the remainder is never negative (Python's takes the divisor's sign).
+    return Some(
+        construct_result(
+            lambda args: args[0] % abs(args[1]) if args[1] != 0 else args[0] % args[1],
+            children_results,
+        )
+    )
 
 
 def evaluate_z3_pow(
